@@ -40,7 +40,7 @@ pub fn constant_pool() -> Vec<V> {
     let mut p: Vec<V> = vec![
         V::Int(0), V::Int(1), V::Int(-1), V::Int(3), V::Int(97), V::Int(i32::MAX), V::Int(i32::MIN),
         V::Float(0.0), V::Float(3.0), V::Float(2.5), V::Float(97.0), V::Float(1e10),
-        V::Char('a'), V::Char('b'), V::Char('é'), V::Byte(0), V::Byte(97),
+        V::Char('a'), V::Char('b'), V::Char('é'), V::Char('i'), V::Char('ï'), V::Char('o'), V::Char('\u{161}'), V::Char('\u{1F661}'), V::Byte(0), V::Byte(97), V::Byte(225),
         V::Sym(0), V::Sym(97), V::Sym(u64::MAX), V::Expr(0), V::Expr(97), V::External(0), V::External(97),
         V::Type(T::Unit), V::Type(T::Number),
         text(""), text("a"), text("b"), text("ab"), V::Bytes(vec![]), V::Bytes(vec![97]), V::Bytes(vec![98]), V::Bytes(vec![97, 98]),
